@@ -393,6 +393,7 @@ impl Issuer {
     /// println!("Encoded JWT: {}", encoded_jwt);
     /// ```
     pub fn encode(&mut self, signer_key: &KeyForEncoding) -> Result<String, Error> {
+        reject_reserved_names(&self.claims, true)?;
         let mut updated_claims = self.claims.clone();
         let disclosures: Result<Vec<Disclosure>, Error> = self
             .disclosable_claim_paths
@@ -440,6 +441,29 @@ impl Issuer {
     pub fn claims_copy(&self) -> Value {
         self.claims.clone()
     }
+}
+
+/// `_sd` and `...` carry digests in the payload and a top-level `_sd_alg` names the digest algorithm.
+/// Holders and verifiers take members with these names for bookkeeping and strip them, so claims of
+/// the caller that use them cannot be issued.
+fn reject_reserved_names(claims: &Value, top_level: bool) -> Result<(), Error> {
+    match claims {
+        Value::Object(map) => {
+            for (name, value) in map {
+                if name == "_sd" || name == "..." || (top_level && name == "_sd_alg") {
+                    return Err(Error::InvalidDisclosureKey(name.clone()));
+                }
+                reject_reserved_names(value, false)?;
+            }
+        }
+        Value::Array(items) => {
+            for item in items {
+                reject_reserved_names(item, false)?;
+            }
+        }
+        _ => {}
+    }
+    Ok(())
 }
 
 fn parent_elem_from_path(path: &str) -> Result<(&str, &str), Error> {
